@@ -72,6 +72,10 @@ def mysql_ssl_request(rng):
     if rng.random() < 0.75:
         capabilities = subset(rng, list(cap), always=(cap.CLIENT_PROTOCOL_41, cap.CLIENT_SSL))
         max_packet = rng.choice([0, 1, 2 ** 24, 2 ** 32 - 1, 0xffffff, rng.getrandbits(32)])
+        if rng.random() < 0.3:
+            # values that fit the older layout too: the request stays constructible when CLIENT_PROTOCOL_41 is taken out
+            capabilities = subset(rng, [m for m in cap if int(m) < 2 ** 16], always=(cap.CLIENT_PROTOCOL_41, cap.CLIENT_SSL))
+            max_packet = rng.choice([0, 1, 2 ** 24 - 1, rng.getrandbits(24)])
         character_set = rng.choice(list(mysql.MySQLCharacterSet))
         lib = mysql.MySQLHandshakeSslRequest(capabilities, max_packet, character_set)
         wire = ref.mysql_ssl_request_41(mask(capabilities), max_packet, character_set.value.code)
